@@ -335,10 +335,83 @@ func caseForReport(c wtCase) any {
 
 // ---------- C13 ----------
 
+// runWTWriteFault: one write call of the stream delivers half of its bytes and fails (a write
+// deadline that expired against a slow peer), the stream stays usable, and the application goes on
+// writing through every API.  Whatever the connection does then, the messages whose write returned
+// nil - and only those - must be what the peer reads, intact and in order.
+func runWTWriteFault(rng *rand.Rand) (key, msg string, okAfterFault int) {
+	sa, sb := fakenet.StreamPipe()
+	a := webtrans.NewConn(nil, sa, rng.IntN(2) == 0, 0, []int{16, 125, 4096}[rng.IntN(3)], nil, nil, nil)
+	b := webtrans.NewConn(nil, sb, true, 0, 0, nil, nil, nil)
+	apis := []string{"message", "prepared", "writer", "string", "readfrom"}
+	var accepted []wtMsg
+	write := func(i int) error {
+		m := wtMsg{API: apis[rng.IntN(len(apis))], Binary: rng.IntN(2) == 0, Len: []int{0, 5, 200, 5000, 70000}[rng.IntN(5)]}
+		m.data = fillPayload(rng, m.Len, !m.Binary)
+		copy(m.data, fmt.Sprintf("#%d#", i))
+		err := writeWT(a, m)
+		if err == nil {
+			accepted = append(accepted, m)
+		}
+		return err
+	}
+	nBefore := rng.IntN(3)
+	for i := 0; i < nBefore; i++ {
+		if err := write(i); err != nil {
+			return "wt-write-error", err.Error(), 0
+		}
+	}
+	sa.TearWrite(rng.IntN(2))
+	failedAt := -1
+	for i := nBefore; i < nBefore+8; i++ {
+		err := write(i)
+		if err != nil && failedAt < 0 {
+			failedAt = i
+		}
+		if err == nil && failedAt >= 0 {
+			okAfterFault++
+		}
+	}
+	sa.Close()
+	var got []refcodec.WTMsg
+	for len(got) <= len(accepted)+64 {
+		typ, rd, err := b.NextReader()
+		if err != nil {
+			break
+		}
+		p, err := io.ReadAll(rd)
+		if err != nil {
+			break
+		}
+		got = append(got, refcodec.WTMsg{Binary: typ == webtrans.BinaryMessage, Payload: p})
+	}
+	if len(got) != len(accepted) {
+		return "wt-roundtrip-mismatch:after-write-fault", fmt.Sprintf("one stream write failed half-way (message %d); %d writes returned nil in all (%d of them after the failure), the peer read %d complete messages", failedAt, len(accepted), okAfterFault, len(got)), okAfterFault
+	}
+	for i := range accepted {
+		if got[i].Binary != accepted[i].Binary || !bytes.Equal(got[i].Payload, accepted[i].data) {
+			return "wt-roundtrip-mismatch:after-write-fault", fmt.Sprintf("one stream write failed half-way (message %d); message %d (api %s, %d bytes), whose write returned nil, was read as %d bytes binary=%v", failedAt, i, accepted[i].API, accepted[i].Len, len(got[i].Payload), got[i].Binary), okAfterFault
+		}
+	}
+	return "", "", okAfterFault
+}
+
 func TestC13(t *testing.T) {
 	r := rep.New(t, "C13")
 	defer r.Flush()
-	r.Rule("PRNG cases = (writer role, write/read buffer size, pool, read fragmentation, 1-20 messages each with kind, length class around 0/125/126/buffer/2*buffer/65535/65536/large, write API incl. a reader that returns its last chunk together with io.EOF, chunking); non-trivial and distinct = distinct (api, kind, length class, buffer size, role, fragmentation class) tuples actually round-tripped")
+	r.Rule("PRNG cases = (writer role, write/read buffer size, pool, read fragmentation, 1-20 messages each with kind, length class around 0/125/126/buffer/2*buffer/65535/65536/large, write API incl. a reader that returns its last chunk together with io.EOF, chunking); plus a write-fault lane (one stream write delivers half of its bytes and fails, the application keeps writing through every API: exactly the messages whose write returned nil must be read); non-trivial and distinct = distinct (api, kind, length class, buffer size, role, fragmentation class) tuples actually round-tripped")
+	frng := r.Rand(131)
+	for i := 0; i < r.N(2000, 200000); i++ {
+		key, msg, _ := runWTWriteFault(frng)
+		r.Obs("write_fault_cases", 1)
+		if i%50 == 0 {
+			r.Case("write-fault", true)
+		}
+		if key != "" {
+			r.Violationf(key, map[string]any{"lane": "a stream write fails half-way, the application keeps writing", "case": i, "seed": r.Seed, "lane_no": r.Lane}, "%s", msg)
+			break
+		}
+	}
 	n := r.N(2500, 300000)
 	rng := r.Rand(13)
 	for i := 0; i < n; i++ {
